@@ -153,6 +153,25 @@ impl World {
                         ColDef { name: "v", data_type: DataType::integer_interval(-1, 1), domain: vec![int(-1), int(1)], unique: true },
                     ],
                 },
+                // two relations with two independent unique columns each (ON clauses combining
+                // equalities on different unique columns: a row can match through either)
+                TableDef {
+                    name: "p",
+                    max_rows: 2,
+                    cols: vec![
+                        ColDef { name: "a", data_type: DataType::integer_interval(1, 2), domain: vec![int(1), int(2)], unique: true },
+                        ColDef { name: "b", data_type: DataType::integer_interval(1, 2), domain: vec![int(1), int(2)], unique: true },
+                    ],
+                },
+                TableDef {
+                    name: "q",
+                    max_rows: 2,
+                    cols: vec![
+                        ColDef { name: "k", data_type: DataType::integer_interval(1, 2), domain: vec![int(1), int(2)], unique: true },
+                        ColDef { name: "x", data_type: DataType::integer_interval(1, 2), domain: vec![int(1), int(2)], unique: false },
+                        ColDef { name: "y", data_type: DataType::integer_interval(1, 2), domain: vec![int(1), int(2)], unique: false },
+                    ],
+                },
                 TableDef {
                     name: "items",
                     max_rows: 3,
